@@ -22,45 +22,79 @@ const (
 type gzipResponseWriter struct {
 	http.ResponseWriter
 	statusCode   int
-	wroteHeader  bool
+	wroteHeader  bool // the handler has called WriteHeader (the status is recorded, not yet sent)
 	minSize      int
 	level        int
 	contentTypes []string
 
 	buf            bytes.Buffer
-	bufferExceeded bool // Track if we exceeded max buffer size
+	bufferExceeded bool // Track if we exceeded max buffer size (or gave up buffering on Flush)
+	committed      bool // the response header has been sent to the underlying writer
+	hijacked       bool
 }
 
+// WriteHeader records the status. It is sent by commit() once it is known whether the
+// body will be compressed: Content-Encoding and Content-Length have to be decided first.
 func (g *gzipResponseWriter) WriteHeader(code int) {
+	// Interim (1xx) responses are not the final status: pass them on
+	if code >= 100 && code < 200 && code != http.StatusSwitchingProtocols {
+		g.ResponseWriter.WriteHeader(code)
+		return
+	}
 	if g.wroteHeader {
 		return
 	}
 
 	g.statusCode = code
 	g.wroteHeader = true
-	g.ResponseWriter.WriteHeader(code)
+}
+
+// commit sends the response header with the recorded status (200 if none was set)
+func (g *gzipResponseWriter) commit() {
+	if g.committed {
+		return
+	}
+	g.committed = true
+	if g.statusCode == 0 {
+		g.statusCode = http.StatusOK
+	}
+	g.ResponseWriter.WriteHeader(g.statusCode)
+}
+
+// passThrough gives up compression: the header and everything buffered so far are sent
+// unmodified and all further writes go straight to the client
+func (g *gzipResponseWriter) passThrough() {
+	if g.bufferExceeded {
+		return
+	}
+	g.bufferExceeded = true
+	g.commit()
+	if g.buf.Len() > 0 {
+		_, _ = g.ResponseWriter.Write(g.buf.Bytes())
+		g.buf.Reset()
+	}
 }
 
 func (g *gzipResponseWriter) Write(b []byte) (int, error) {
-	// Check if adding this data would exceed max buffer size. Once it has, everything is
-	// streamed: data buffered after that point would never be written by Finish.
+	// Once the max buffer size was exceeded everything is streamed without compression
 	if g.bufferExceeded || g.buf.Len()+len(b) > MaxCompressionBufferSize {
-		// Mark as exceeded and fall back to streaming uncompressed
-		if !g.bufferExceeded {
-			g.bufferExceeded = true
-			// Flush existing buffer uncompressed
-			if g.buf.Len() > 0 {
-				_, _ = g.ResponseWriter.Write(g.buf.Bytes())
-				g.buf.Reset()
-			}
-		}
-		// Stream directly without compression
+		g.passThrough()
 		return g.ResponseWriter.Write(b)
 	}
 	return g.buf.Write(b)
 }
 
+// Flush means the handler wants what it has written so far to reach the client now
+// (streaming, server-sent events). A response that may still be compressed has to be
+// buffered completely, so its flushes are absorbed (a reverse proxy flushes every
+// response of unknown length); any other response is passed through from here on and
+// keeps streaming.
 func (g *gzipResponseWriter) Flush() {
+	if !g.bufferExceeded && g.Header().Get("Content-Encoding") == "" &&
+		matchesContentType(g.Header().Get("Content-Type"), g.contentTypes) {
+		return
+	}
+	g.passThrough()
 	if f, ok := g.ResponseWriter.(http.Flusher); ok {
 		f.Flush()
 	}
@@ -68,27 +102,21 @@ func (g *gzipResponseWriter) Flush() {
 
 func (g *gzipResponseWriter) Hijack() (net.Conn, *bufio.ReadWriter, error) {
 	if h, ok := g.ResponseWriter.(http.Hijacker); ok {
+		g.hijacked = true
 		return h.Hijack()
 	}
 	return nil, nil, fmt.Errorf("underlying ResponseWriter does not support hijacking")
 }
 
-func (g *gzipResponseWriter) Finish() error {
-	if !g.wroteHeader {
-		g.WriteHeader(http.StatusOK)
+// shouldCompressBody decides whether the complete, buffered body is to be compressed
+func (g *gzipResponseWriter) shouldCompressBody(body []byte) bool {
+	if len(body) == 0 {
+		return false // nothing to compress (204, 304, HEAD, empty bodies)
 	}
-
-	// If buffer was exceeded, data was already streamed uncompressed
-	if g.bufferExceeded {
-		return nil
-	}
-
-	body := g.buf.Bytes()
 
 	// never encode a response that already carries a content coding
 	if g.Header().Get("Content-Encoding") != "" {
-		_, err := g.ResponseWriter.Write(body)
-		return err
+		return false
 	}
 
 	clHeader := g.Header().Get("Content-Length")
@@ -96,41 +124,49 @@ func (g *gzipResponseWriter) Finish() error {
 		cl, err := strconv.Atoi(clHeader)
 		// if Content-Length header found and is less than the minSize then return the body as is.
 		if err == nil && cl < g.minSize {
-			_, err := g.ResponseWriter.Write(body)
-			return err
+			return false
 		}
 	}
 
 	// acts as a fallback when Content-Length is not available.
 	if len(body) < g.minSize {
-		_, err := g.ResponseWriter.Write(body)
-		return err
+		return false
 	}
 
 	// return body as is when Content-Type doesn't match specified in Config
-	ct := g.Header().Get("Content-Type")
-	if !matchesContentType(ct, g.contentTypes) {
+	return matchesContentType(g.Header().Get("Content-Type"), g.contentTypes)
+}
+
+func (g *gzipResponseWriter) Finish() error {
+	// Hijacked connections (websockets) and responses already streamed uncompressed are done
+	if g.hijacked || g.bufferExceeded {
+		return nil
+	}
+
+	body := g.buf.Bytes()
+
+	if !g.shouldCompressBody(body) {
+		g.commit()
+		if len(body) == 0 {
+			return nil
+		}
 		_, err := g.ResponseWriter.Write(body)
 		return err
 	}
 
+	// The header is decided before the status goes out
 	g.Header().Set("Content-Encoding", "gzip")
 	// Remove Content-Length since compressed size differs from original
 	g.Header().Del("Content-Length")
+	g.commit()
 
 	gz, err := gzip.NewWriterLevel(g.ResponseWriter, g.level)
 	if err != nil {
 		return err
 	}
-	defer func() {
-		if err := gz.Close(); err != nil {
-			// Log the error but don't fail the request
-			_ = err // Explicitly ignore
-		}
-	}()
 
-	_, err = gz.Write(body)
-	if err != nil {
+	if _, err = gz.Write(body); err != nil {
+		_ = gz.Close()
 		return err
 	}
 
